@@ -565,6 +565,7 @@ func c18Run(c *Ctx) {
 	}
 	hand := append(c03Handwritten(), c04Handwritten()...)
 	hand = append(hand, c18DeepPrograms()...)
+	hand = append(hand, c11Freshness()...)
 	for _, src := range hand {
 		cs := c18Case(c, r, "handwritten-programs", src, "")
 		if cs == nil {
